@@ -995,17 +995,10 @@ class ReftableRefsContainer(RefsContainer):
 
     def allkeys(self) -> set[Ref]:
         """Return set of all ref names."""
-        refs = self._read_all_tables()
-        result = set(refs.keys())
-
-        # For symbolic refs, also include their targets as implicit refs
-        for refname, (value_type, value) in refs.items():
-            if value_type == REF_VALUE_SYMREF:
-                # Add the target ref as an implicit ref
-                target = value
-                result.add(Ref(target))
-
-        return result
+        # Only refs that exist: the target of a symbolic ref is listed if and
+        # only if it has a record of its own (HEAD may point at an unborn
+        # branch), as in the other backends.
+        return set(self._read_all_tables().keys())
 
     def follow(self, name: Ref) -> tuple[list[Ref], ObjectID | None]:
         """Follow a reference name.
